@@ -59,6 +59,31 @@ func c12Pool(c *ev.Ctx) []poolStream {
 			}
 		}
 	}
+	// members whose block starts with uncompressed chunks and brings its first LZMA chunk with a
+	// dictionary reset (and other reset kinds in the middle), with payloads of some size
+	for i, seq := range [][]string{{"rawD", "LRND", "L"}, {"rawD", "raw", "LRND"}, {"rawD", "LRN", "rawD", "LRND", "LR"}, {"LRND", "raw", "LR", "rawD", "LRN"}} {
+		rr := prng.New(c.Seed, 129, uint64(i))
+		got := 0
+		for try := 0; try < 30 && got < 4; try++ {
+			l2, parts := realiseSeqBulk(rr, seq, true, true)
+			var content []byte
+			for _, p := range parts {
+				content = append(content, p...)
+			}
+			if len(l2) > 60000 {
+				continue
+			}
+			b := ref.BuildXZ([]byte{ref.CheckCRC32, ref.CheckCRC64, ref.CheckNone, ref.CheckSHA256}[i], []ref.BlockSpec{{LZMA2: l2, Content: content, DictCode: 0}})
+			if o, ss, err := ref.DecodeXZ(b, 0); err == nil && len(ss) == 1 && bytes.Equal(o, content) {
+				if len(content) < 300 {
+					continue
+				}
+				pool = append(pool, poolStream{fmt.Sprintf("resets%d-%d", i, got), b, content})
+				c.Count("pool_members_with_reset_kinds", 1)
+				got++
+			}
+		}
+	}
 	if lzc.Available() {
 		for i := 0; i < 3; i++ {
 			d := gen.Data(r, []string{"sandwich", "sandwich2", "altseg"}[i], 200000)
